@@ -271,6 +271,10 @@ class BagComponent(Component):
 
     def make(self, rng, params):
         keys = ["u0", "u1", "u2", "ALU", "alu", "B", "b"]
+        if rng.random() < 0.25:
+            # keys whose repr() is not just the quoted text: quotes, backslash, control and Latin-1 characters
+            keys = ["it's", 'say "hi"', "both'\"", "back\\slash", "tab\there", "nl\n", "\x85", "\u00e9t\u00e9",
+                    "soft\xadhyphen", "del\x7f", "nb\xa0sp", "cr\r", ""]
         vals = params.get("vals") or [[0, "U"], [0, "D"], [1, "U"], [1, "S"], [2, "D"]]
 
         def rec():
